@@ -3,7 +3,7 @@ from fractions import Fraction
 
 from .. import nf
 from ..nf import Poly, Tup, Const, NONE, TRUE, FALSE
-from ..model import AnalysisError
+from ..model import AnalysisError, dotted
 from ..rules import run as analyse, returns, fmt, is_app, S, C, has_factor, conds_str
 
 HALF = lambda x: nf.floor(x / 2)
@@ -340,6 +340,23 @@ def run(chk, repo, tier):
         if ra is not None and is_app(ra, ('where', 'clip', 'select', 'putmask', 'setitem', 'ifexp', 'piecewise')) and \
                 any(x[0] == 'loop' for x in nf.value_atoms(p.ret)):
             wrapped.append(fmt(p.ret)[:100])
+    # the coefficients are ratios of factorials that cancel almost completely at high order: they are exact only as long as
+    # the factorials are the integer ones (math.factorial, or scipy's with exact=True) - the float gamma function loses the
+    # rim value R(1) = 1 from n = 26 on
+    import ast as _ast
+    from ..interp import known_functions as _kf11
+    inexact, nfac = [], 0
+    for g in [fr] + [h for h in repo.all_functions() if h.module.name == 'zernike' and h.key not in _kf11()]:
+        for node in _ast.walk(g.node):
+            if isinstance(node, _ast.Call) and (dotted(node.func) or '').split('.')[-1] in ('factorial', 'gamma', 'comb', 'binom'):
+                nfac += 1
+                tgt = repo.resolve_name(g.module, dotted(node.func))
+                nm_ = tgt[1] if isinstance(tgt, tuple) and tgt[0] == 'ext' else ''
+                exact = any(k.arg == 'exact' and isinstance(k.value, _ast.Constant) and k.value.value is True for k in node.keywords)
+                if nm_.startswith('scipy.special.') and not exact or nm_.endswith('gamma') or nm_.endswith('.binom'):
+                    inexact.append(f'`{g.module.segment(node)[:40]}` at {g.loc(node)} is {nm_}')
+    chk.ob('C11-f', 'T-precision', fr.key, 'the factorials of the radial coefficients are exact integers', (not inexact) if nfac else None,
+           '; '.join(sorted(set(inexact))[:2]) + (': floating-point factorials' if inexact else f'{nfac} factorial call(s)'), fr.loc())
     chk.ob('C11-f', 'N-formula', fr.key, 'the radial polynomial is returned as summed (no values replaced afterwards)',
            (not wrapped) if rets_r else None, '; '.join(wrapped[:1]) + (': samples selected by rho get another value than the polynomial'
                                                                        if wrapped else ''), fr.loc())
